@@ -1304,6 +1304,13 @@ M('C11', 'original defect: MPO.from_grids reads the last grid before projecting 
   "                first_grid = grids[0]\n                last_grid = grids[-1]\n                if len(first_grid) > 1:\n                    grids[0] = [first_grid[IdL[0]]]\n                    IdL[0] = 0\n                    IdR[0] = None\n",
   'ALIAS-ends')
 
+M('C19', 'original defect: possible_multi_couplings tests the coupling shape only for == 0', 'tenpy/models/lattice.py',
+  "        coupling_shape, shift_lat_indices = self.multi_coupling_shape(dx[0, :, :])\n        if any([s <= 0 for s in coupling_shape]):", "        coupling_shape, shift_lat_indices = self.multi_coupling_shape(dx[0, :, :])\n        if any([s == 0 for s in coupling_shape]):",
+  'GEOM-shape-nonpositive')
+M('C19', 'possible_multi_couplings tests the coupling shape with min(...) < 1 (twin)', 'tenpy/models/lattice.py',
+  "        coupling_shape, shift_lat_indices = self.multi_coupling_shape(dx[0, :, :])\n        if any([s <= 0 for s in coupling_shape]):", "        coupling_shape, shift_lat_indices = self.multi_coupling_shape(dx[0, :, :])\n        if min(coupling_shape) < 1:",
+  None, expect='silent')
+
 # ---------------------------------------------------------------- C16 / C19
 M('C16', 'GMRES restart: relative residual norm used for normalisation (round-3 seed b)', KRY,
   """        self.total_error.append([npc.norm(self.rs[-1]) / self.b_norm])
